@@ -403,6 +403,13 @@ def find_probe(schema, entry):
                 out.append([xsd_element.name, path, [getattr(x, 'name', None) for x in r][:20]])
             except Exception as exc:
                 out.append([xsd_element.name, path, 'raise', type(exc).__name__])
+    # lookups that start at the SCHEMA node: what is global there must not depend on what was validated before
+    for path in ('*', '*/*', './/*'):
+        try:
+            r = schema.findall(path, ns)
+            out.append(['schema', path, len(r), sorted({str(getattr(x, 'name', None)) for x in r})[:30]])
+        except Exception as exc:
+            out.append(['schema', path, 'raise', type(exc).__name__])
     return {'k': 'ok', 'v': out}
 
 
